@@ -1,0 +1,43 @@
+//go:build verif
+
+// Contracts for package deletionstate, checked by /verif (govc). Comment-only.
+package deletionstate
+
+// ---------------------------------------------------------------------------------------------
+// C15: the set queued ∪ deleted only grows; Delete moves an id from queued to deleted; exists /
+// Filter answer exactly membership in that union.
+//@ func (*objectDeletionState).updateStatus
+//@   trusted
+//@   modifies nothing
+//@ func field objectDeletionState.stateUpdateObservers
+//@   modifies nothing
+
+//@ func (*objectDeletionState).exists
+//@   modifies nothing
+//@   requires st != nil
+//@   ensures [membership] result <==> ((id in st.deleted) || (id in st.queued))
+
+//@ func (*objectDeletionState).Delete
+//@   requires st != nil
+//@   assumes st.deleted != nil && st.queued != st.deleted
+//@   ensures [deleted_recorded]  id in st.deleted
+//@   ensures [not_queued_twice]  !(id in st.queued)
+//@   ensures [grow_only] forall k string :: old((k in st.deleted) || (k in st.queued)) ==> ((k in st.deleted) || (k in st.queued))
+//@   ensures [deleted_stays_deleted] forall k string :: old(k in st.deleted) ==> (k in st.deleted)
+
+//@ func (*objectDeletionState).Filter
+//@   requires st != nil
+//@   ensures [only_live_ids] forall i int :: 0 <= i && i < len(filtered) ==> !((filtered[i] in st.deleted) || (filtered[i] in st.queued))
+//@   loop 0:
+//@     invariant -1 <= rangeindex && rangeindex < len(ids)
+//@     invariant forall i int :: 0 <= i && i < len(filtered) ==> !((filtered[i] in st.deleted) || (filtered[i] in st.queued))
+
+// queueing ids for deletion never removes a known id and never touches the deleted set (stated as
+// the invariant of the queueing loop: the observers called afterwards are arbitrary callbacks)
+//@ func (*objectDeletionState).Add
+//@   requires st != nil
+//@   assumes st.queued != nil && st.queued != st.deleted && ids != st.queued && ids != st.deleted
+//@   loop 0:
+//@     invariant forall k string :: old((k in st.deleted) || (k in st.queued)) ==> ((k in st.deleted) || (k in st.queued))
+//@     invariant forall k string :: old(k in st.deleted) <==> (k in st.deleted)
+//@     invariant st.queued == old(st.queued) && st.deleted == old(st.deleted)
